@@ -5,7 +5,7 @@
 (*   level 0 of every case is a full dump and is judged by LevelFails of PartitionCheck.tla, i.e. by every predicate   *)
 (*   of Partition.tla verbatim (Cover, Injective, PatchIsSubmesh, NeighbourSymmetricComplete, HaloAgree, ...);         *)
 (*   the jointly refined levels are compact dumps (no coordinates, no index sets of the patch meshes); they are judged  *)
-(*   by the same clauses, evaluated through a table  E[r + 1][d + 1] = Ent(Lv, r, dim, d)  that is computed once per level      *)
+(*   by the same clauses, evaluated through a table  E[r+1][d+1] = Ent(Lv, r, dim, d)  that is computed once per level  *)
 (*   (Partition.tla re-evaluates Ent for every pair of ranks, which is quadratic in the number of patches):             *)
 (*     Cover, Injective               verbatim                                                                          *)
 (*     ClosureT                       the entity clauses of PatchIsSubmesh: the patch mesh has exactly the entities of   *)
